@@ -160,6 +160,7 @@ def run(tier, seed):
         failing += class_stream(ck)
         failing += malformed_stream(ck, tmp, 10 if not ck.deep else 60)
         failing += nesting_stream(ck)
+        failing += command_stream(ck, tmp)
         ck.cov["rule"] = ("for each of N generated envelopes: every node (descending through bstr-wrapped layers) replaced by 26 "
                           "representatives of the CBOR types (raw splice and with the enclosing byte-string headers rebuilt), every "
                           "truncation (sampled when long), random byte edits, length-field inflation of every head; nesting of "
@@ -336,11 +337,83 @@ def nesting_stream(ck):
     return fails
 
 
+
+def nested_dependencies(depth):
+    """an envelope whose integrated dependency is an envelope whose integrated dependency is ... (depth levels), built by hand"""
+    import hashlib
+    env = None
+    for k in range(depth + 1):
+        man = cbor2.dumps({1: 1, 2: k, 3: cbor2.dumps({2: [[b"M", k]]})})
+        members = {2: cbor2.dumps([cbor2.dumps([-16, hashlib.sha256(cbor2.dumps(man)).digest()])]), 3: man}
+        if env is not None:
+            members["#d"] = env
+        env = cbor2.dumps(cbor2.CBORTag(107, members))
+    return env
+
+
+def command_stream(ck, tmp):
+    """The parse COMMAND (not only the library call) on envelopes with nested integrated dependencies, all output forms:
+    exit cleanly, in time, with an output whose size stays proportional to the input."""
+    import subprocess
+    import time
+    fails = []
+    depths = [2, 8, 14] if not ck.deep else [2, 6, 10, 14, 18]
+    for depth in depths:
+        data = nested_dependencies(depth)
+        for fmt in ("json", "yaml"):
+            for hier in (True, False):
+                d = os.path.join(tmp, f"cmd{depth}{fmt}{int(hier)}")
+                os.makedirs(d, exist_ok=True)
+                with open(os.path.join(d, "in.suit"), "wb") as fh:
+                    fh.write(data)
+                code = ("import sys, resource; resource.setrlimit(resource.RLIMIT_FSIZE, (64 << 20, 64 << 20));"
+                        "from suit_generator.cmd_parse import main;"
+                        f"main(input_file='in.suit', output_file='out.{fmt}', output_format='{fmt}', parse_hierarchy={hier})")
+                t0 = time.time()
+                try:
+                    p = subprocess.run([core.PY, "-c", code], cwd=d, capture_output=True, text=True, timeout=120, env=dict(os.environ, PYTHONPATH=core.REPO))
+                    rc, err = p.returncode, p.stderr[-200:]
+                except subprocess.TimeoutExpired:
+                    rc, err = "timeout", "no result within 120 s"
+                dt = time.time() - t0
+                out = os.path.join(d, "out." + fmt)
+                size = os.path.getsize(out) if os.path.exists(out) else None
+                ck.count("command", (depth, fmt, hier), nontrivial=True, sample={"dependency_nesting": depth, "format": fmt, "hierarchy": hier, "input_bytes": len(data),
+                                                                                 "output_bytes": size, "seconds": round(dt, 2)})
+                why = None
+                if rc != 0:
+                    why = f"parse command ended with {rc}: {err}"
+                elif size is None:
+                    why = "no output written"
+                elif size > 400 * len(data) + 65536:
+                    why = f"output of {size} bytes for an input of {len(data)} bytes (nesting {depth})"
+                elif dt > 60:
+                    why = f"{dt:.0f} s for an input of {len(data)} bytes"
+                if why:
+                    fails.append({"input": {"op": "parse command", "bytes": data.hex(), "output_format": fmt, "parse_hierarchy": hier, "dependency_nesting": depth},
+                                  "observed": why, "expected": "a description (or a clean input error) in time and space proportional to the input"})
+                shutil.rmtree(d, ignore_errors=True)
+                if len(fails) > 3:
+                    return fails
+    return fails
+
 def replay(path):
     rec = json.load(open(path))
     inp = rec["input"]
     if inp is None:
         return run("quick", rec.get("seed", 0))
+    if inp.get("op") == "parse command":
+        class _CK:
+            deep = False
+            def count(self, *a, **k):
+                pass
+        tmp = tempfile.mkdtemp(prefix="c17r-")
+        try:
+            fs = [f for f in command_stream(_CK(), tmp) if f["input"]["output_format"] == inp["output_format"] and f["input"]["parse_hierarchy"] == inp["parse_hierarchy"]]
+        finally:
+            shutil.rmtree(tmp, ignore_errors=True)
+        print("REPRODUCED: " + fs[0]["observed"] if fs else "not reproduced on the current tree")
+        return 1 if fs else 0
     data = bytes.fromhex(inp["bytes"])
     t0 = time.perf_counter()
     r = interp.run_impl(interp.impl_parse, inp["class"], data) if "class" in inp else interp.run_impl(impl_parse_raw, data)
